@@ -270,7 +270,7 @@ def specs(tier):
     for A, B in pairs:
         for op in OPS:
             out.append(dict(module="checks.c06", scenario="WellFormed", params=dict(A=A, B=B, expr=[op, "A", "B"]), time_budget=None if tier == "quick" else 2400))
-    shapes = ["square", "tri", "cw:penta", "hollow2", "two"] if tier == "quick" else ["square", "tri", "penta", "cw:penta", "ell", "you", "quad", "hollow", "hollow2", "two", "inv:two", "inv:hollow", "framedot"]
+    shapes = ["square", "tri", "cw:penta", "hollow2", "two", "framedot"] if tier == "quick" else ["square", "tri", "penta", "cw:penta", "ell", "you", "quad", "hollow", "hollow2", "two", "inv:two", "inv:hollow", "framedot"]
     for S in shapes:
         for law in SingletonLaw.LAWS:
             out.append(dict(module="checks.c06", scenario="SingletonLaw", params=dict(S=S, law=law)))
